@@ -363,6 +363,12 @@ class Run:
         if not self.violations:
             print("OK property=%s tier=%s cases=%d wall=%.1fs" % (self.prop, self.tier, cov["evaluations"], ev["wall_s"]))
             return 0
+        try:
+            with open(os.path.join(CACHE, "violations_%s.json" % self.prop), "w") as f:
+                json.dump([{"kind": v["kind"], "what": v["what"], "sig": (v["replay"] or {}).get("signature")}
+                           for v in self.violations], f, indent=0, default=str)
+        except Exception:
+            pass
         # first report violations with a failing input, then the rest
         self.violations.sort(key=lambda v: (not v["found_input"], v["kind"] != "impl"))
         seen = set()
